@@ -178,7 +178,9 @@ void recipeExec(RunState& rs) {
 
     // reference evaluation (WeightKernel layout only, no periodic images): attribution, and the C09 oracle
     const bool weightLayout = (tw.kernel == "weight");
-    if (weightLayout && !sc.isPeriodic()) {
+    bool hasTop = false;
+    for (const HistOp& op : sc.history) if (op.op == "top") hasTop = true;
+    if (weightLayout && !hasTop) {
         std::vector<int> flagSeq;
         for (const HistOp& op : sc.history) if (op.op == "execute") flagSeq.push_back(op.flags);
         RefValues ref = refEvaluate(ctx, twin->view(), flagSeq);
@@ -202,7 +204,7 @@ void recipeExec(RunState& rs) {
                      std::string(counter ? "counter-wrapped kernel vs plain kernel" : "task-based executor vs sequential executor"));
         compareViews(ctx, world->view(), twin->view(), (1u << BUF_CELL_SYMB) | (1u << BUF_PART_SYMB), "symbolic-changed", "symbolic data after execute vs sequential twin");
         rs.drain("run");
-        if (weightLayout && !counter && !sc.isPeriodic() && sc.isTsm()) {
+        if (weightLayout && !counter && !hasTop && sc.isTsm()) {
             std::vector<int> flagSeq;
             for (const HistOp& op : sc.history) if (op.op == "execute") flagSeq.push_back(op.flags);
             RefValues ref = refEvaluate(ctx, world->view(), flagSeq);
